@@ -198,6 +198,9 @@ def post_model(cases, impl, model):
             d = m[side]
             if "imports" in d:
                 d["imports"] = " ".join(sorted(d["imports"].split(" "))) if d["imports"] else ""
+            for k in list(d):
+                if k.startswith(("jget:", "jset:", "jexp:")) and d[k] != "-":
+                    d[k] = ",".join(sorted(d[k].split(",")))       # compared as sets (statement order is the template's business)
             if c["id"].endswith("m"):
                 if "star-eq" in impl[c["id"]]:
                     d["star-eq"] = "true"      # impl-vs-impl leg (`-type=*` against `-file=`): no model, the property says equal
